@@ -808,6 +808,8 @@ pub fn gen_c12(rng: &mut Prng, thorough: bool, out: &mut Out) {
                 for &i in &[1u64, n as u64] {
                     let y = shamir_eval(&coeffs, i);
                     out.case(g1, &format!("scct_create_decryption_share {} {}", ct, share_tok(i, &y)));
+                    // the trait-level function of the same name, which the wrapper does not call
+                    out.case(g1, &format!("trait_create_decryption_share {} q{}", share_tok(i, &y), hs(&u)));
                     let ds = pt_share_tok(i, &enc_pk(g1, &(u * y)));
                     let pks = pt_share_tok(i, &enc_pk(g1, &y));
                     let j = if i == 1 { n as u64 } else { 1 };
